@@ -308,6 +308,20 @@ int nsync_cv_wait_with_deadline_generic (nsync_cv *pcv, void *pmu,
 	return (outcome);
 }
 
+/* Wake the waiter *nw, which is not embedded in a waiter struct (it was
+   enqueued via nsync_cv_waitable_funcs, e.g. by nsync_wait_n()).  Requires that
+   the caller hold *pcv's spinlock and have removed *nw from pcv->waiters.
+   Such a waiter has no remove_count, so once its "waiting" field is cleared
+   and the spinlock released, cv_dequeue() may return and *nw may cease to
+   exist; so it is woken here, under the spinlock, rather than in
+   wake_waiters(), as note.c and counter.c wake their waiters under their
+   locks.  The semaphore is in a waiter struct, which is never deallocated. */
+static void wake_non_native_waiter (struct nsync_waiter_s *nw) {
+	nsync_semaphore *sem = nw->sem;
+	ATM_STORE_REL (&nw->waiting, 0); /* release store */
+	nsync_mu_semaphore_v (sem);
+}
+
 /* Wake at least one thread if any are currently blocked on *pcv.  If
    the chosen thread is a reader on an nsync_mu, wake all readers and, if
    possible, a writer. */
@@ -333,8 +347,10 @@ void nsync_cv_signal (nsync_cv *pcv) {
 						ATM_LOAD (&DLL_WAITER (first)->remove_count);
 				} while (!ATM_CAS (&DLL_WAITER (first)->remove_count,
 						   old_value, old_value+1));
+				to_wake_list = nsync_dll_make_last_in_list_ (to_wake_list, first);
+			} else {
+				wake_non_native_waiter (first_nw);
 			}
-			to_wake_list = nsync_dll_make_last_in_list_ (to_wake_list, first);
 			if ((first_nw->flags & NSYNC_WAITER_FLAG_MUCV) != 0 &&
 			    DLL_WAITER (first)->l_type == nsync_reader_type_) {
 				int woke_writer;
@@ -375,9 +391,11 @@ void nsync_cv_signal (nsync_cv *pcv) {
 								    &DLL_WAITER (p)->remove_count);
 							} while (!ATM_CAS (&DLL_WAITER (p)->remove_count,
 									   old_value, old_value+1));
+							to_wake_list = nsync_dll_make_last_in_list_ (
+								to_wake_list, p);
+						} else {
+							wake_non_native_waiter (p_nw);
 						}
-						to_wake_list = nsync_dll_make_last_in_list_ (
-							to_wake_list, p);
 					}
 				}
 			}
@@ -420,8 +438,10 @@ void nsync_cv_broadcast (nsync_cv *pcv) {
 					old_value = ATM_LOAD (&DLL_WAITER (p)->remove_count);
 				} while (!ATM_CAS (&DLL_WAITER (p)->remove_count,
 						   old_value, old_value+1));
+				to_wake_list = nsync_dll_make_last_in_list_ (to_wake_list, p);
+			} else {
+				wake_non_native_waiter (p_nw);
 			}
-			to_wake_list = nsync_dll_make_last_in_list_ (to_wake_list, p);
 		}
 		/* Release spinlock and mark queue empty. */
 		ATM_STORE_REL (&pcv->word, 0); /* release store */
